@@ -1,4 +1,5 @@
 import Votca.Model.C12
+import Votca.Model.C12R
 import Mathlib.Tactic.Ring
 import Mathlib.Tactic.FieldSimp
 import Mathlib.Tactic.Linarith
@@ -161,5 +162,38 @@ theorem smooth_line_fixed (a b x h : Rat) : ((a * (x - h) + b) + 2 * (a * x + b)
 /-! non-vacuity -/
 example : cubicCalcAt [0, 1, 3] [2, 5, 1] [0, -4, 0] 0 1 = 5 ∧ cubicCalcAt [0, 1, 3] [2, 5, 1] [0, -4, 0] 1 1 = 5 := by decide +kernel
 example : smooth 2 [0, 4, 0, 4, 0] = [0, 3/2, 2, 3/2, 0] := by decide +kernel
+
+/-! ## csg_resample: flags of the output table -/
+
+open Votca.C12R in
+/-- an output point that is an input abscissa takes that point's flag (abscissae increasing by more than the 1e-12 slack) -/
+theorem Votca.C12R.outFlags_at_input_point (pre post : List (Rat × Char)) (x : Rat) (f : Char)
+    (hpre : ∀ e ∈ pre, e.1 < x - 1 / 1000000000000) :
+    Votca.C12R.outFlags ((pre ++ (x, f) :: post).map (·.1)) ((pre ++ (x, f) :: post).map (·.2)) [x] = [f] := by
+  have hzip : ((pre ++ (x, f) :: post).map (·.1)).zip ((pre ++ (x, f) :: post).map (·.2)) = pre ++ (x, f) :: post := by
+    induction (pre ++ (x, f) :: post) with
+    | nil => rfl
+    | cons a l ih => simp [ih]
+  have hfirst : ¬ (x < nth ((pre ++ (x, f) :: post).map (·.1)) 0 - 1 / 1000000000000) := by
+    cases pre with
+    | nil => simp [nth]
+    | cons e rest =>
+      have := hpre e (by simp)
+      simp [nth]
+      linarith
+  have hnone : pre.find? (fun (xi, _) => decide (xi ≥ x) || decide (absRat (xi - x) < 1 / 1000000000000)) = none := by
+    apply List.find?_eq_none.mpr
+    intro e he
+    have := hpre e he
+    have h1 : ¬ e.1 ≥ x := by intro h; linarith
+    have h2 : ¬ absRat (e.1 - x) < 1 / 1000000000000 := by
+      unfold absRat
+      split <;> intro h <;> linarith
+    have h2' : ¬ absRat (e.1 - x) < 1000000000000⁻¹ := by simpa using h2
+    simp [h1, h2']
+  simp only [Votca.C12R.outFlags, List.map_cons, List.map_nil, hzip, if_neg hfirst]
+  rw [List.find?_append, hnone]
+  simp
+
 
 end Votca.C12
